@@ -40,7 +40,7 @@ func idxPred[T comparable](d *Dom[T], p, k int) func(int, T) bool {
 
 func tabIndex[T comparable](d *Dom[T], v T) int {
 	for i, x := range d.Tab {
-		if x == v {
+		if sameElem(d, x, v) {
 			return i
 		}
 	}
